@@ -1,6 +1,7 @@
 """World A - BacktestSim: runs the real FlumineSimulation over in-memory stream files with scripted
 agents; observers are attached by wrapping flumine methods inside the checker process."""
 import io
+import json
 import sys
 import traceback
 import datetime as _dt_mod
@@ -812,6 +813,17 @@ class BacktestRun:
         for m in sc["markets"]:
             files[marketgen.file_path(m)] = "\n".join(marketgen.serialise_lines(m)) + "\n"
 
+        if sc.get("sports_data"):
+            # recorded race data (rcm) per market, read by flumine's SimulatedSportsDataMiddleware through the same file seam
+            for m in sc["markets"]:
+                rids = list(m["runners"])
+                lines = []
+                for j, u in enumerate(m["updates"]):
+                    if u.get("rcm"):
+                        rc = {"mid": m["id"], "id": "%s.1200" % m["event_id"], "rpc": {"ft": u["pt"] - 1, "g": "1f", "st": 1.0, "rt": 2.0, "spd": 17.0, "prg": float(u["rcm"]), "ord": rids}, "rrc": [{"ft": u["pt"] - 1, "id": r, "long": 0.1, "lat": 0.2, "spd": 17.0, "prg": float(u["rcm"]), "sfq": 2.1} for r in rids[:2]]}
+                        lines.append(json.dumps({"op": "rcm", "id": 123, "clk": "r%d" % j, "pt": u["pt"] - 1, "rc": [rc]}))
+                files["/sportsdir/%s" % m["id"]] = "\n".join(lines) + "\n"
+
         def fake_open(path, mode="r", *a, **k):
             return io.StringIO(files[path])
 
@@ -921,6 +933,10 @@ class BacktestRun:
                 fw.add_trading_control(scripted_control_class(False), spec=cs)
         for mw in sc.get("middlewares", ()):
             fw.add_market_middleware(ScriptMiddleware(self, mw))
+        if sc.get("sports_data"):
+            from flumine.markets.middleware import SimulatedSportsDataMiddleware
+
+            fw.add_market_middleware(SimulatedSportsDataMiddleware("raceSubscription", "/sportsdir"))
         Agent = agent_class()
         for ss in sc["strategies"]:
             paths = [marketgen.file_path(sc["markets"][i]) for i in ss["markets"]]
